@@ -34,11 +34,26 @@ CONTEXTS = {
     'deep': lambda v: [[{'k': (v,)}]],
     'dkey': lambda v: {v: 1},
     'elem-after-equal': lambda v: [_plain(v), v],
+    # the very same object at two positions of one print
+    'twice': lambda v: [v, (v,)],
 }
 
 
 def _plain(v):
     """the equal value of the built-in base type (printed just before the instance)"""
+    return raw_base(v)
+
+
+def raw_base(v):
+    """The underlying value as an instance of the built-in base type, without
+    going through anything the subclass may override (str(x) would use an
+    overridden __str__, bytes(x) an overridden __bytes__)."""
+    if isinstance(v, (str, bytes)):
+        return v[:] if type(v[:]) in (str, bytes) else (str.__str__(v) if isinstance(v, str) else bytes(v))
+    if isinstance(v, float):
+        return float.__float__(v)
+    if isinstance(v, int):
+        return int.__int__(v)
     for b in subcls.BASES:
         if isinstance(v, b):
             return b(v)
@@ -65,6 +80,8 @@ def unwrap(ctxname, got):
         return list(got)[0]
     if ctxname == 'elem-after-equal':
         return got[1]
+    if ctxname == 'twice':
+        return got[1][0]
 
 
 class SubclassCase(pfbase.CfgCase):
@@ -103,7 +120,7 @@ class SubclassCase(pfbase.CfgCase):
 
     def judge(self, text, w, rw, wlist):
         describe = lambda: 'class=%s base value=%r context=%s w=%r rw=%r\noutput:\n%s' % (
-            self.cls.__name__, self.basecls(self.inst) if self.basecls is not float else float(self.inst),
+            self.cls.__name__, raw_base(self.inst),
             self.ctxname, w, rw, text)
         bname = self.basecls.__name__
         if any(issubclass(x.category, UserWarning) for x in wlist):
@@ -125,7 +142,7 @@ class SubclassCase(pfbase.CfgCase):
             if bname in ('str', 'bytes') and type(inner) is self.basecls:
                 return self.fail('C08:%s-subclass-wrapper-lost' % bname, describe)
             return self.fail('C08:class-not-kept:' + bname, describe)
-        if not pfbase.strict_eq(self.basecls(inner), self.basecls(self.inst)):
+        if not pfbase.strict_eq(raw_base(inner), raw_base(self.inst)):
             return self.fail('C08:base-value-differs:' + bname, describe)
         return True
 
@@ -155,7 +172,8 @@ def cases(tier, seed):
                         # every (class, value) at top level or one rotating context
                         if flavour in ('Str', 'Both') and vi % 2 == 1:
                             continue
-                        if ci != (n // 7) % len(CONTEXTS) and not (ctx == 'dval' and bn in ('str', 'bytes') and flavour == 'Plain'):
+                        if ci != (n // 7) % len(CONTEXTS) and not (ctx == 'dval' and bn in ('str', 'bytes') and flavour == 'Plain') \
+                                and not (ctx == 'twice' and vi == 1 and flavour in ('Plain', 'Repr')):
                             continue
                     elif flavour in ('Str', 'Both') and (vi + ci) % 3 != 0:
                         continue        # thorough: a third of the contexts for the __str__ flavours
@@ -170,7 +188,7 @@ def cases(tier, seed):
                                     'params': {'cls': cname, 'base_value': bv, 'context': ctx, 'slice': 'ribbon'},
                                     'budget': 300.0, 'path_timeout': 30.0})
     for member in ('RED', 'BIG'):
-        for ctx in (CONTEXTS if tier == 'thorough' else ['top', 'dval']):
+        for ctx in (CONTEXTS if tier == 'thorough' else ['top', 'dval', 'twice']):
             out.append({'name': 'Color.%s:%s' % (member, ctx), 'family': 'subclass',
                         'params': {'cls': 'Color', 'member': member, 'context': ctx, 'slice': 'page'},
                         'budget': 60.0})
